@@ -106,6 +106,12 @@ def gen_vars(r, layout=None, int_frac=0.0, positive=False):
     elif layout == "F":
         decl("vector", "v", n=r.choice([11, 12, 13]))  # more than ten elements
         decl("scalar", "x")
+    elif layout == "G":
+        # a 3x3 (or 3x4 / 2x3) matrix: off-diagonal blocks, non-square shapes
+        sym = r.random() < 0.5
+        rows, cols = (3, 3) if sym else r.choice([(3, 3), (3, 4), (2, 3)])
+        decl("matrix", "A", rows=rows, cols=cols, symmetric=sym)
+        decl("scalar", "x")
     else:
         decl("vector", "v", n=r.choice([3, 4]))
         decl("scalar", "x")
@@ -130,7 +136,8 @@ def vec_handles(spec_vars):
         elif d["kind"] == "matrix":
             out.append(["mrow", d["name"], 0])
             out.append(["mcol", d["name"], 1])
-            out.append(["mdiag", d["name"]])
+            if d["rows"] == d["cols"]:
+                out.append(["mdiag", d["name"]])
     return [(v, S.vec_names(tmp, v)) for v in out]
 
 
@@ -505,8 +512,10 @@ def gen_pool(r, kinds=("lin", "quad", "nl"), layout=None, int_frac=0.0, nobj=5, 
         d = mats[0]
         ub = d["ub"] if d.get("ub") is not None else 4.0
         lb = d["lb"] if d.get("lb") is not None else -4.0
-        B = [[lb + (ub - lb) * r.choice([0.25, 0.5, 0.75, 1.0]) for _ in range(d["cols"])] for _ in range(d["rows"])]
-        sp["cons"]["cm"] = {"k": "m", "lhs": [r.choice(["mat", "mat", "mT"]), d["name"]], "sense": "<=", "rhs": B}
+        side = r.choice(["mat", "mat", "mT"])
+        shape = (d["rows"], d["cols"]) if side == "mat" else (d["cols"], d["rows"])
+        B = [[lb + (ub - lb) * r.choice([0.25, 0.5, 0.75, 1.0]) for _ in range(shape[1])] for _ in range(shape[0])]
+        sp["cons"]["cm"] = {"k": "m", "lhs": [side, d["name"]], "sense": "<=", "rhs": B}
         ckinds["cm"] = "lin"
         sp["cons"]["cn"] = {"k": "m", "lhs": ["mat", d["name"]], "sense": ">=", "rhs": lb + 0.25 * (ub - lb)}
         ckinds["cn"] = "lin"
@@ -1021,15 +1030,31 @@ def gen_param_ops_reset(r, sp):
 IGRID = [-3, -1, 1, 2, 2, 3, 5]  # the same numbers a user would type without a decimal point
 
 
+# numbers in the dtype they might arrive in (read from a float32 array, an int8 column, a boolean mask):
+# each value is exactly representable in its dtype, so the meaning of the write is unambiguous
+TYPED_GRID = {
+    "float32": [0.5, -1.5, 2.0, 3.5, 0.800000011920929, 0.10000000149011612, 1234.5677490234375],
+    "float16": [0.5, -1.5, 2.0, 3.5, 0.0999755859375, 60000.0, 0.300048828125],
+    "int32": [-3, 1, 2, 5, 40000],
+    "int8": [-3, 1, 2, 5, 100],
+    "bool": [True, False],
+}
+
+
 def gen_param_op(r, sp):
     d = r.choice(sp["params"])
     ints = r.random() < 0.2
     grid = IGRID if ints else PGRID
+    tail = []
+    if r.random() < 0.15:
+        dt = r.choice(sorted(TYPED_GRID))
+        grid = TYPED_GRID[dt]
+        tail = [dt]
     if d["kind"] == "scalar":
-        return ["param_set", 0, d["name"], r.choice(grid)]
+        return ["param_set", 0, d["name"], r.choice(grid)] + tail
     if r.random() < 0.5:
-        return ["vparam_set", 0, d["name"], [r.choice(grid) for _ in range(d["n"])]]
-    return ["pel_set", 0, d["name"], r.randrange(d["n"]), r.choice(grid)]
+        return ["vparam_set", 0, d["name"], [r.choice(grid) for _ in range(d["n"])]] + tail
+    return ["pel_set", 0, d["name"], r.randrange(d["n"]), r.choice(grid)] + tail
 
 
 def gen_c12(r):
@@ -1778,9 +1803,53 @@ def gen_c06_scaling(r):
     return {"knobs": dict(DEFAULT_KNOBS), "ops": ops}
 
 
+def gen_c06_bigm(r):
+    """Indicator ("big-M") modelling with relaxed integer / binary switches: x <= M z with a small
+    forced x, so the relaxed switch ends at a tiny fraction (d/M ~ 1e-7 .. 1e-6) next to an integer
+    while its coefficient M is large: anything that touches such a value after the point has been
+    verified (rounding, snapping, clipping) moves the constraint by M times as much."""
+    from .world import DEFAULT_KNOBS
+
+    M = r.choice([1000.0, 2000.0, 5000.0])
+    frac = r.choice([2e-7, 5e-7, 8e-7, 3e-6])
+    d = M * frac
+    k = r.choice([0.0, 0.0, 1.0, 2.0])  # the switch sits next to k (integer switches: next to 1 or 2 as well)
+    zdom = "binary" if k == 0.0 and r.random() < 0.5 else "integer"
+    sp = {"name": "bigm", "vars": [{"kind": "scalar", "name": "x", "lb": 0.0, "ub": 10000.0, "domain": "continuous"},
+                                     {"kind": "scalar", "name": "z", "lb": 0.0 if zdom == "integer" else None, "ub": 5.0 if zdom == "integer" else None, "domain": zdom},
+                                     {"kind": "scalar", "name": "y", "lb": 0.0, "ub": 4.0, "domain": "continuous"}],
+          "params": [], "exprs": {}, "cons": {}}
+    X, Z, Y = ["var", "x"], ["var", "z"], ["var", "y"]
+    sp["exprs"] = {"o0": ["+", Z, ["*", ["num", 0.5], ["**", ["-", Y, ["num", 1.0]], ["num", 2]]]],
+                   "o1": ["+", Z, Y],
+                   "o2": ["+", ["*", ["num", 3.0], Z], ["**", ["-", X, ["num", M * k + d]], ["num", 2]]]}
+    sp["cons"] = {"cm": {"k": "s", "lhs": X, "sense": "<=", "rhs": ["*", ["num", M], Z]} if r.random() < 0.5 else
+                        {"k": "s", "lhs": ["-", X, ["*", ["num", M], Z]], "sense": "<=", "rhs": ["num", 0.0]},
+                  "cd": {"k": "s", "lhs": X, "sense": ">=", "rhs": ["num", M * k + d]},
+                  "cy": {"k": "s", "lhs": ["+", Y, Z], "sense": "<=", "rhs": ["num", 6.0]}}
+    sp["expr_order"] = sorted(sp["exprs"])
+    sp["con_order"] = sorted(sp["cons"])
+    ops = [["new_model", 0, sp], ["minimize", 0, r.choice(["o0", "o0", "o1", "o2"])], ["subject_to", 0, "cm"], ["subject_to", 0, "cd"]]
+    if r.random() < 0.4:
+        ops.append(["subject_to", 0, "cy"])
+    for _ in range(r.choice([1, 2, 3])):
+        a = {"method": r.choice(["SLSQP", "SLSQP", "trust-constr", "auto", "auto", "COBYLA", "linprog"])}
+        if r.random() < 0.3:
+            a["tol"] = r.choice([1e-8, 1e-10])
+        if r.random() < 0.4:
+            pt = {"x": M * k + d + r.choice([0.0, 1.0, 50.0]), "y": r.choice([0.5, 2.0]), "z": k + r.choice([0.5, 1.0])}
+            a["x0"] = [pt[n] for n in sorted(S.problem_vars(_state_after(ops)), key=S.natural_key)]
+        ops.append(["solve", 0, cap_iterations(r, a)])
+        if r.random() < 0.3:
+            ops.append([r.choice(["summary", "read_variables", "read_bounds"]), 0])
+    return {"knobs": dict(DEFAULT_KNOBS), "ops": ops}
+
+
 def gen_c06(r, tier="quick", c07=False):
     if not c07 and r.random() < 0.03:
         return gen_c06_scaling(r)
+    if not c07 and r.random() < 0.04:
+        return gen_c06_bigm(r)
     if not c07 and r.random() < 0.15:
         return gen_c06_param(r)
     if not c07 and r.random() < 0.07:
@@ -1800,7 +1869,7 @@ def gen_c06(r, tier="quick", c07=False):
             del sp["exprs"][g]
         sp["expr_order"] = sorted(sp["exprs"])
     else:
-        sp, meta = gen_pool(r, kinds=kinds, nobj=3, ncon=5, layout=r.choice(["A", "B", "C", "D", "E"]) if c07 else ("D" if r.random() < 0.2 else None))
+        sp, meta = gen_pool(r, kinds=kinds, nobj=3, ncon=5, int_frac=r.choice([0.0, 0.0, 0.0, 0.35]), layout=r.choice(["A", "B", "C", "D", "E", "G", "G"]) if c07 else (r.choice(["D", "D", "G"]) if r.random() < 0.25 else None))
     inf = r.random() < (0.2 if c07 else 0.4)
     if inf:
         make_infeasible(r, sp)
@@ -1847,6 +1916,10 @@ def gen_c06(r, tier="quick", c07=False):
             b = {"method": a["method"], "fault": {"site": "compile", "k": r.choice([1, 2, 3, 4, 5, 7]), "exc": r.choice(["MemoryError", "RecursionError", "ValueError"])}}
             ops.append(["solve", 0, b])  # the first attempt dies while building its caches; then the retry
         ops.append(["solve", 0, a])
+        if r.random() < 0.12:
+            # the user looks at the model and solves it again, nothing else: looking changes nothing
+            ops.append([r.choice(["summary", "summary", "repr", "read_variables", "read_bounds"]), 0])
+            ops.append(["solve", 0, cap_iterations(r, {"method": r.choice(["SLSQP", "trust-constr", "auto", method])})])
         k = r.random()
         if k < 0.15:
             # an edit between solves (cached closures / LP data get rebuilt)
@@ -1862,6 +1935,9 @@ def gen_c06(r, tier="quick", c07=False):
             ops.append(gen_param_op(r, sp))
             if r.random() < 0.5:
                 ops.append(gen_param_op(r, sp))
+        elif k >= 0.88:
+            # the user looks at the model between two solves; looking must not change anything
+            ops.append([r.choice(["summary", "summary", "repr", "read_variables", "read_bounds", "read_n"]), 0])
         elif k < 0.6:
             e = r.choice(sorted(S.problem_vars(_state_after(ops)), key=S.natural_key) or ["w"])
             at = S.elem_attrs(_state_after(ops))[e]
@@ -2116,9 +2192,46 @@ def gen_c18_many(r):
     return {"knobs": dict(DEFAULT_KNOBS), "ops": ops}
 
 
+def gen_c18_single_vector(r):
+    """Every expression of the model is a reduction over ONE VectorVariable object (the fast path of
+    variable discovery), and single ELEMENTS get a domain of their own (v[1].domain = "integer", or
+    an integer vector with one element made continuous): integrality is a property of each element."""
+    from .world import DEFAULT_KNOBS
+
+    n = r.choice([3, 4])
+    lb, ub = gen_bounds(r, finite=1.0)
+    dom = r.choice(["continuous", "continuous", "integer"])
+    sp = {"name": "sv", "share_views": True, "vars": [{"kind": "vector", "name": "v", "n": n, "lb": lb, "ub": ub, "domain": dom}],
+          "params": [], "exprs": {}, "cons": {}}
+    V = ["vec", "v"]
+    sp["exprs"] = {"o0": ["lincomb", [r.choice(COEFS) for _ in range(n)], V], "o1": ["vsum", V],
+                   "o2": ["-", ["dot", V, V], ["vsum", V]]}
+    sp["cons"] = {"c0": {"k": "s", "lhs": ["vsum", V], "sense": r.choice(["<=", ">="]), "rhs": ["num", (lb + ub) / 2.0 * n]},
+                  "c1": {"k": "s", "lhs": ["lincomb", [r.choice(POS) for _ in range(n)], V], "sense": "<=", "rhs": ["num", ub * n + 1.0]}}
+    sp["expr_order"] = sorted(sp["exprs"])
+    sp["con_order"] = sorted(sp["cons"])
+    ops = [["new_model", 0, sp], [r.choice(["minimize", "maximize"]), 0, r.choice(["o0", "o0", "o1", "o2"])]]
+    for c in r.sample(["c0", "c1"], r.choice([0, 1, 2])):
+        ops.append(["subject_to", 0, c])
+    meths = ["auto", "auto", "linprog", "highs-ds", "SLSQP", "trust-constr", "L-BFGS-B"]
+    if r.random() < 0.4:
+        ops.append(["solve", 0, cap_iterations(r, {"method": r.choice(meths), "strict": r.random() < 0.5})])
+    for _ in range(r.randint(1, 3)):
+        for e in r.sample(range(n), r.choice([1, 1, 2])):
+            ops.append(["set_domain", 0, f"v[{e}]", "integer" if dom == "continuous" or r.random() < 0.3 else "continuous"])
+        for _ in range(r.choice([1, 2])):
+            a = {"method": r.choice(meths), "strict": r.random() < 0.5}
+            if r.random() < 0.3:
+                a["same_site"] = True
+            ops.append(["solve", 0, cap_iterations(r, a)])
+    return {"knobs": dict(DEFAULT_KNOBS), "ops": ops}
+
+
 def gen_c18(r, tier="quick"):
     if r.random() < 0.06:
         return gen_c18_many(r)
+    if r.random() < 0.07:
+        return gen_c18_single_vector(r)
     if r.random() < 0.12:
         return gen_redeclare(r, int_frac=0.4, strict_frac=0.45)
     return gen_c13(r, int_frac=r.choice([0.3, 0.6, 1.0]), strict_frac=0.45, maxlen=16)
@@ -2232,6 +2345,41 @@ C13_POOLS = [
 ]
 
 
+def c14_sweep_cases(tier):
+    """Prefix-length sweep ("however many expressions have passed through the caches"): an adversary
+    N that shares variable names with the target M at other positions, then EVERY number k of
+    throw-away compilations over k distinct variable orderings (0..K), then M observed.  Whatever
+    fixed-size table, ring or LRU sits between the two models, its wrap-around falls on some k."""
+    from .world import DEFAULT_KNOBS
+
+    def V(name, lb, ub):
+        return {"kind": "scalar", "name": name, "lb": lb, "ub": ub, "domain": "continuous"}
+
+    N = {"name": "n", "vars": [V("y", 0.0, 3.0), V("z", 0.0, 3.0)], "params": [],
+         "exprs": {"o0": ["+", ["*", ["var", "y"], ["var", "z"]], ["**", ["-", ["var", "y"], ["num", 1.0]], ["num", 2]]]},
+         "cons": {"c0": {"k": "s", "lhs": ["*", ["var", "y"], ["var", "z"]], "sense": "<=", "rhs": ["num", 2.0]}},
+         "expr_order": ["o0"], "con_order": ["c0"]}
+    M = {"name": "m", "vars": [V("x", 0.0, 3.0), V("y", 0.0, 3.0), V("z", 0.0, 3.0)], "params": [],
+         "exprs": {"o0": ["chain", "+", [["**", ["-", ["var", "x"], ["num", 3.0]], ["num", 2]], ["**", ["-", ["var", "y"], ["num", 1.0]], ["num", 2]], ["**", ["var", "z"], ["num", 2]]]],
+                   "o1": ["*", ["var", "x"], ["var", "y"]]},
+         "cons": {"c0": {"k": "s", "lhs": ["*", ["var", "x"], ["var", "y"]], "sense": "<=", "rhs": ["num", 2.0]}},
+         "expr_order": ["o0", "o1"], "con_order": ["c0"]}
+    pN = {"y": 1.5, "z": 0.5}
+    pM = {"x": 0.5, "y": 1.5, "z": 0.25}
+    K, step = (48, 3) if tier == "quick" else (400, 1)
+    for k in range(0, K + 1, step):
+        ops = [["new_model", 1, N], ["minimize", 1, "o0"], ["subject_to", 1, "c0"],
+               ["compile", 1, "h0", "jac", {"es": ["o0"], "order": ["y", "z"]}], ["call", 1, "h0", pN],
+               ["solve", 1, {"method": "SLSQP"}]]
+        if k:
+            ops.append(["flood", k, "q", "orders"])
+        ops += [["new_model", 0, M], ["minimize", 0, "o0"], ["subject_to", 0, "c0"],
+                ["compile", 0, "h0", "jac", {"es": ["o1"], "order": ["x", "y", "z"]}], ["call", 0, "h0", pM],
+                ["compile", 0, "h1", "hess", {"e": "o1", "order": ["x", "y", "z"]}], ["call", 0, "h1", pM],
+                ["solve", 0, {"method": "SLSQP"}], ["solve", 0, {"method": "trust-constr", "maxiter": 120}]]
+        yield f"prefix-orders:k{k}", {"knobs": dict(DEFAULT_KNOBS), "ops": ops}
+
+
 def c13_alphabet(pool):
     return [
         ["minimize", 0, "olin"],
@@ -2320,3 +2468,124 @@ def c06_sweep_cases(tier, c07=False):
 
 def c07_sweep_cases(tier):
     return c06_sweep_cases(tier, c07=True)
+
+
+# --------------------------------------------------------------------------
+# variable naming styles (a structural rename of a finished case)
+# --------------------------------------------------------------------------
+
+_NAT = {"A": "q1", "u": "q2", "v": "q9", "w": "q10", "x": "q11", "y": "q100", "z": "q101"}
+_UNI = {"A": "Α", "u": "α", "v": "β", "w": "γ", "x": "δ", "y": "ε", "z": "ζ"}
+NAME_STYLES = ["under", "under", "nat", "uni", "dunder"]
+
+
+def _name_map(names, style):
+    """Order-preserving (natural order) renamings: leading underscore (private-looking names),
+    numbered names whose natural order differs from their lexicographic order, non-ASCII names."""
+    if style == "nat" and all(n in _NAT for n in names):
+        return {n: _NAT[n] for n in names}
+    if style == "uni" and all(n in _UNI for n in names):
+        return {n: _UNI[n] for n in names}
+    if style == "dunder":
+        return {n: "__" + n + "__" for n in names}
+    return {n: "_" + n for n in names}
+
+
+def rename_case(case, style):
+    """The same case with every declared variable renamed (expressions, element names in bound /
+    domain edits, compile orders, evaluation points, read routes follow)."""
+    import copy
+
+    case = copy.deepcopy(case)
+    names = set()
+    for op in case["ops"]:
+        inner = op[2] if op[0] == "with_reclimit" else op
+        if inner[0] in ("new_model", "redeclare"):
+            for d in inner[2]["vars"]:
+                names.add(d["name"])
+    mp = _name_map(sorted(names), style)
+
+    def el(s):
+        # "v[0]" / "A[0,1]" / "x"
+        base, br, rest = s.partition("[")
+        return mp.get(base, base) + br + rest
+
+    def vec(v):
+        t = v[0]
+        if t in ("vec", "vslice", "vrev", "vstride", "mrow", "mcol", "mdiag", "mTrow", "mrowslice", "msubrow"):
+            v[1] = mp.get(v[1], v[1])
+        elif t == "vexpr":
+            for e in v[1]:
+                expr(e)
+        elif t in ("vscale", "vshift", "vpow"):
+            vec(v[1])
+        elif t in ("matvec", "vfn"):
+            vec(v[2])
+        elif t == "mvprod":
+            v[1] = mp.get(v[1], v[1])
+            vec(v[2])
+        elif t in ("mT", "msub", "mat"):
+            v[1] = mp.get(v[1], v[1])
+        elif t == "elem":
+            v[1] = el(v[1])
+
+    def expr(e):
+        t = e[0]
+        if t in ("var", "vel", "mel", "msum", "trace", "frob"):
+            e[1] = mp.get(e[1], e[1])
+        elif t in S.BINOPS:
+            expr(e[1])
+            expr(e[2])
+        elif t == "neg":
+            expr(e[1])
+        elif t == "fn":
+            expr(e[2])
+        elif t in ("vsum", "norm", "quad", "qform"):
+            vec(e[1])
+        elif t == "lincomb":
+            vec(e[2])
+        elif t == "dot":
+            vec(e[1])
+            vec(e[2])
+        elif t == "bilin":
+            vec(e[1])
+            vec(e[3])
+        elif t == "chain":
+            for s in e[2]:
+                expr(s)
+
+    def spec(sp):
+        for d in sp["vars"]:
+            d["name"] = mp.get(d["name"], d["name"])
+        for e in sp["exprs"].values():
+            expr(e)
+        for c in sp["cons"].values():
+            if c["k"] == "s":
+                expr(c["lhs"])
+                expr(c["rhs"])
+            elif c["k"] == "m":
+                c["lhs"][1] = mp.get(c["lhs"][1], c["lhs"][1])
+            else:
+                vec(c["lhs"])
+
+    def one(op):
+        k = op[0]
+        if k == "with_reclimit":
+            one(op[2])
+        elif k in ("new_model", "redeclare"):
+            spec(op[2])
+        elif k in ("set_lb", "set_ub", "set_domain"):
+            op[2] = el(op[2])
+        elif k == "compile":
+            a = op[4]
+            a["order"] = [el(n) for n in a["order"]]
+            if "wrt" in a:
+                a["wrt"] = el(a["wrt"])
+        elif k in ("call", "evaluate"):
+            op[3] = {el(n): v for n, v in op[3].items()}
+        elif k == "read_elems":
+            vec(op[2])
+
+    for op in case["ops"]:
+        one(op)
+    return case
